@@ -325,3 +325,15 @@ var _ = strings.Contains
 
 // VerifReplayInit runs before native replay: the package's own tests switch debug logging on in their init.
 func VerifReplayInit() { SetDebug(0) }
+
+func isBoolType(e *Element) bool { return e.CVal.Kind() == constant.Bool }
+func constantBool(e *Element) bool { return constant.BoolVal(e.CVal) }
+func verifIsZeroConst(e *Element) bool {
+	switch e.CVal.Kind() {
+	case constant.String:
+		return constant.StringVal(e.CVal) == ""
+	case constant.Int, constant.Float, constant.Complex:
+		return constant.Sign(e.CVal) == 0
+	}
+	return false
+}
